@@ -73,9 +73,11 @@ type ParamsPatch struct {
 	// enterprise
 	Signers    []int  `json:"signers,omitempty"`     // account indices (valid addresses)
 	SignersRaw string `json:"signers_raw,omitempty"` // if set, used verbatim (malformed lists)
-	MinAccepts uint64 `json:"min_accepts,omitempty"`
-	TimeLimit  uint64 `json:"time_limit,omitempty"`
-	Denom      string `json:"denom,omitempty"`
+	// UpperSigner k > 0: the k-th entry of Signers (1-based, modulo) is written in the upper-case bech32 spelling
+	UpperSigner int    `json:"upper_signer,omitempty"`
+	MinAccepts  uint64 `json:"min_accepts,omitempty"`
+	TimeLimit   uint64 `json:"time_limit,omitempty"`
+	Denom       string `json:"denom,omitempty"`
 	// wrkchain / beacon
 	FeeReg   uint64 `json:"fee_reg,omitempty"`
 	FeeRec   uint64 `json:"fee_rec,omitempty"`
@@ -134,6 +136,13 @@ type Tx struct {
 	// FeePayer: account index+1 of an explicit fee payer (AuthInfo.Fee.Payer) who co-signs; 0 = the first signer pays.
 	FeePayer int  `json:"fee_payer,omitempty"`
 	Check    bool `json:"check,omitempty"` // run CheckTx before DeliverTx
+	// TailSelf (WrapExecTail): the messages inside the exec are sent by the first signer in its own name (grantee ==
+	// named party: authz executes them without a grant), whoever their targets belong to.
+	TailSelf bool `json:"tail_self,omitempty"`
+	// Amino: signed with SIGN_MODE_LEGACY_AMINO_JSON (hardware wallets) instead of SIGN_MODE_DIRECT.
+	Amino bool `json:"amino,omitempty"`
+	// TamperK selects the field that is altered after signing (Fault == lab.FaultTamper).
+	TamperK int `json:"tamper_k,omitempty"`
 	// Repeat > 1: the transaction is built and delivered that many times in a row (each time resolved
 	// against the then-current state): bulk populations around pagination / page-size boundaries.
 	Repeat int `json:"repeat,omitempty"`
